@@ -46,6 +46,8 @@ pub fn det_corpus() -> Vec<String> {
     for k in ["", "_", "@", "$", "!"] {
         v.push(format!("r = {}{{ \"a\" ~ (s | \"b\"){{2}} }}\ns = {}{{ &\"c\" ~ r? ~ \"c\" }}", k, k));
     }
+    // several Unicode property built-ins (imported into the generated module as one `use` list)
+    v.push("p = { LETTER ~ NUMBER? ~ (EMOJI | HAN | MATH | WHITE_SPACE | PUNCTUATION | UPPERCASE_LETTER | XID_START | CURRENCY_SYMBOL)* }\nq = { p ~ DECIMAL_NUMBER+ ~ HIRAGANA? }".to_string());
     // a skip-until with many delimiters (the generator stores them as one array constant)
     v.push("w = @{ (!(\"ab\" | \"cd\" | \"ef\" | \"gh\" | \"ij\" | \"kl\" | \"mn\" | \"op\" | \"qr\" | \"st\") ~ ANY)* ~ \"x\"? }\nv = { w ~ w? }".to_string());
     v
